@@ -122,8 +122,6 @@ def classify(tree, extras, env, valid, spec_tab):
                 return "F-C16-2"
             if text == b"" or canon_py(text) != text:
                 return "F-C16-3"
-            if valid.get(b"", False) and valid.get(text, False):
-                return "F-C16-6"
             lits.append(text)
             continue
         ev = env[name]
